@@ -245,6 +245,16 @@ def ipv6_text(tier, seed):
         return "reference text forms mis-parsed"
       if ip.num != n:
         return "num"
+      # the mixed notation on request (last 32 bits as a dotted quad), for EVERY address - the zero run may end right in front
+      # of the quad (::1.2.3.4, 1:2:3:4::1.2.3.4; added 2026-09-25 after seeded change C16_11 printed ':::1.2.3.4' there)
+      m = ip.to_str(ipv4=True)
+      try:
+        if int(ipaddress.IPv6Address(m)) != n:
+          return "mixed notation %r denotes another address" % m
+      except ValueError:
+        return "mixed notation %r is not an IPv6 address text" % m
+      if IPAddr6(m).raw != raw:
+        return "re-parse of the mixed notation %r gives %r" % (m, IPAddr6(m).raw)
     yield ("ipv6=%032x" % n, t)
   # construction from an IPv4 address: the IPv4-mapped address ::ffff:a.b.c.d (RFC 4291 2.5.5.2)
   v4s = set()
